@@ -1,6 +1,6 @@
 (* C04 — Compact integers: canonical, minimal, width-compatible bijection.
    Pinned statements only; proofs live in CompactSpec/CompactProofs/CompactTheorems. *)
-Require Import Scale.Bytes Scale.Eres Scale.Prog Scale.CompactImpl Scale.CompactSpec
+Require Import Scale.Bytes Scale.Eres Scale.Prog Scale.ProgMore Scale.CompactImpl Scale.CompactSpec
   Scale.CompactProofs Scale.CompactTheorems.
 
 (* the code's encoder (per width, with its casts and shifts) produces the specification form *)
